@@ -128,7 +128,8 @@ def h_resolve():
         Base = cls(vm, SYM, "LogicalOperator")           # any class pair with a strict subclass relation serves as attribute / nested types
         Sub = cls(vm, SYM, "Not")
         Other = cls(vm, SYM, "Literal")
-        for attr_it, attr_type, nested_type, has_kwargs in itertools.product((False, True), (None, Base, Sub), (None, Base, Sub, Other), (False, True)):
+        S = cls(vm, MATCH, "Select")
+        for NestedCls, attr_it, attr_type, nested_type, has_kwargs in itertools.product((M, S), (False, True), (None, Base, Sub), (None, Base, Sub, Other), (False, True)):
             attr = attr_obj(vm, attr_it, attr_type)
             nested_cond = vm.alloc(cls(vm, SYM, "SymbolicExpression"), {}, tag="nested-condition")
             resolved_with = []
@@ -139,8 +140,11 @@ def h_resolve():
                 a[0].fields["variable"] = a[1]
                 return None
             vm.spec.stubs["Match._resolve"] = fake_resolve
-            m = vm.alloc(M, {"variable": None, "universal": False, "existential": False, "type_": nested_type, "conditions": PyList([]),
-                             "kwargs": make_dict([("x", 1)] if has_kwargs else [])}, tag="nested-match")
+            m = vm.alloc(NestedCls, {"variable": None, "universal": False, "existential": False, "type_": nested_type, "conditions": PyList([]),
+                             "kwargs": make_dict([("x", 1)] if has_kwargs else [])}, tag="nested-match" if NestedCls is M else "nested-select")
+            if NestedCls is S:
+                m.fields["_var_"] = attr          # set by the enclosing match before it resolves the selection
+                m.fields["is_selected"] = True
             parent = vm.alloc(M, {}, tag="parent-match")
             aa = vm.alloc(AA, {"attr_name": "f", "variable": None, "assigned_value": m, "conditions": PyList([]), "attr": attr}, tag="assignment")
             del log[:]
@@ -155,7 +159,9 @@ def h_resolve():
             want_flatten = attr_it and (has_kwargs or type_filter)
             used = resolved_with[0][0] if resolved_with else None
             flattened = isinstance(used, Obj) and used.fields.get("built") == "flatten" and used.fields["args"][0] is attr
-            label = f"attr={'collection' if attr_it else 'scalar'}:{getattr(attr_type, 'name', None)} nested={getattr(nested_type, 'name', None)} kwargs={has_kwargs}"
+            label = f"{NestedCls.name} attr={'collection' if attr_it else 'scalar'}:{getattr(attr_type, 'name', None)} nested={getattr(nested_type, 'name', None)} kwargs={has_kwargs}"
+            ctx.check("Match._resolve::the-requested-type-and-flags-of-a-pattern-are-not-rewritten-by-resolving-it",
+                      z3.BoolVal(m.fields.get("type_") is nested_type and m.fields.get("universal") is False and m.fields.get("existential") is False), detail=f"{label}: type_={m.fields.get('type_')!r}")
             ctx.check("AttributeAssignment.resolve::flattens-a-collection-attribute-exactly-when-the-nested-match-constrains-it",
                       z3.BoolVal(flattened == want_flatten and (flattened or used is attr) and resolved_with and resolved_with[0][1] is parent), detail=label)
             conds = aa.fields["conditions"].items
@@ -195,6 +201,12 @@ def h_constructors():
         m = vm.call(g("match"), [T], {})
         m2 = vm.call(m, [], {"a": 1, "b": 2})
         ctx.check("Match.__call__::records-the-keyword-constraints", z3.BoolVal(m2 is m and [k for k, _ in dict_items(m.fields["kwargs"])] == ["a", "b"]))
+        # every literal is a constraint, also None / 0 / False / "" / an empty list (attribute == that value)
+        emp = PyList([])
+        given = {"a": None, "b": 0, "c": False, "d": "", "e": emp, "f": 7}
+        m3 = vm.call(vm.call(g("select"), [T], {}), [], dict(given))
+        got = dict(dict_items(m3.fields["kwargs"]))
+        ctx.check("Match.__call__::every-keyword-is-a-constraint-whatever-its-value", z3.BoolVal(list(got) == list(given) and all(got[k] is given[k] for k in given)), detail=repr(got))
     return Harness("constructors", run, spec=Spec())
 
 
